@@ -10,7 +10,20 @@ def sh(cmd, cwd=None):
     p = subprocess.run(cmd, shell=True, cwd=cwd, stdout=subprocess.PIPE, stderr=subprocess.STDOUT, text=True)
     return p.returncode, p.stdout
 out = open(f"{T}/report/results.jsonl", "a")
+# queue mode: `--queue <file>`: items are taken from a list shared by several sandboxes; an item is claimed by creating
+# /tmp/claims/<item> exclusively, so that each is run once
+if items and items[0] == "--queue":
+    items = open(items[1]).read().split()
+    os.makedirs("/tmp/claims", exist_ok=True)
+    def claim(it):
+        try:
+            os.close(os.open("/tmp/claims/" + it.replace(":", "__"), os.O_CREAT | os.O_EXCL | os.O_WRONLY)); return True
+        except FileExistsError:
+            return False
+else:
+    def claim(it): return True
 for it in items:
+    if not claim(it): continue
     kind, name = it.split(":", 1)
     d = f"/verif/{kind}/{name}"
     meta = json.load(open(f"{d}/meta.json"))
